@@ -31,15 +31,19 @@ class Finding:
 
 class Ctx:
     def __init__(self, prop: str, tier: str = "quick", repo: str = "/repo", overrides: Optional[Dict[str, str]] = None,
-                 quiet: bool = False):
+                 quiet: bool = False, share: Optional["Ctx"] = None):
         self.prop = prop
         self.tier = tier
         self.repo = repo
         self.t0 = time.time()
-        self.prog = Program(repo, overrides)
-        self.unit_counts = check_floors(self.prog)
-        self._res = None
-        self._ce = None
+        if share is not None:
+            # several properties analysed on one parsed program (mutation sweep): the engines are read-only for the rules
+            self.prog, self.unit_counts, self._res, self._ce = share.prog, share.unit_counts, share.res, share.ce
+        else:
+            self.prog = Program(repo, overrides)
+            self.unit_counts = check_floors(self.prog)
+            self._res = None
+            self._ce = None
         self.obligations: List[Dict[str, Any]] = []
         self.findings: List[Finding] = []
         self.notes: List[str] = []
